@@ -76,7 +76,7 @@ Proof.
 Qed.
 
 Definition bad_prev (p : option token) : bool :=
-  match p with Some TkEqual | Some TkCheckSig | Some TkCheckMultiSig => true | _ => false end.
+  match p with Some TkEqual | Some TkNumEqual | Some TkCheckSig | Some TkCheckMultiSig => true | _ => false end.
 
 (* a push that becomes exactly one token: a 20/32/33/65-byte string, or a minimal non-negative
    number of at most 4 bytes that is not the single byte of an OP_n *)
